@@ -1,9 +1,10 @@
 package main
 
 // C20 — structural conversion (type/conversion).  Type-directed generator over a small
-// universe of Go types built by reflection, the real conversion.ConvertFrom, observation of
-// the deep structure of the target, property oracles on the implementation's own behaviour,
-// and case shards for the model (coq/run/C20Run.v).
+// universe of Go types built by reflection, the real conversion.ConvertFrom (and, in
+// c20entry.go, conversion.DecodeFrom and bus.Proxy.Call2), observation of the deep structure of
+// the target, property oracles on the implementation's own behaviour, and case shards for the
+// model (coq/run/C20Run.v).
 
 import (
 	"fmt"
@@ -979,6 +980,8 @@ type c20env struct {
 	// on the value itself.  history: the calls made earlier in the same sequence, for the report
 	entry   *c20entry
 	history string
+	// encodeInto: conversion.EncodeInto is usable on this tree (c20EncodeIntoUsable)
+	encodeInto bool
 }
 
 func (e *c20env) emit(t1, t2 *gt, canon string, comp, other bool, resTerm, oldTerm, desc string) {
